@@ -240,6 +240,19 @@ func genSeq(r *fw.RNG, o Opts, depth int) *Sel {
 		if !o.Hostile && bareEdge(s) {
 			continue
 		}
+		// Every edge multiplies the selector at each recursion level (the edge is replaced by
+		// the whole sequence, and several live edges give unions of unions): the walk's cost is
+		// (number of edges)^depth. Ordinary selectors have one edge; hostile ones at most two.
+		maxEdges := 1
+		if o.Hostile {
+			maxEdges = 2
+		}
+		if countEdges(s) > maxEdges {
+			if tries > 200 {
+				return &Sel{Kind: "union", Members: []*Sel{{Kind: "match"}, {Kind: "all", Next: &Sel{Kind: "edge"}}}}
+			}
+			continue
+		}
 		return s
 	}
 }
@@ -372,4 +385,28 @@ func HasOverlap(s *Sel) bool {
 		return HasOverlap(s.Seq)
 	}
 	return false
+}
+
+func countEdges(s *Sel) int {
+	switch s.Kind {
+	case "edge":
+		return 1
+	case "all", "index", "range":
+		return countEdges(s.Next)
+	case "fields":
+		n := 0
+		for _, f := range s.Fields {
+			n += countEdges(f.Sel)
+		}
+		return n
+	case "union":
+		n := 0
+		for _, x := range s.Members {
+			n += countEdges(x)
+		}
+		return n
+	case "rec":
+		return countEdges(s.Seq) // nested recursion (hostile only) multiplies as well
+	}
+	return 0
 }
